@@ -280,11 +280,16 @@ fn structured_body(c: &mut Choices) -> Case
 {
 	// statement trees of the scope / placement checks: what the front end lets
 	// through must also survive IR generation and LLVM's verifier
-	let src = match c.draw(3)
+	// (half random trees, half drawn from the exhaustive enumerations of the
+	// three checks, whose bodies are otherwise well formed)
+	let src = match c.draw(6)
 	{
 		0 => crate::c04::random_source(c),
 		1 => crate::c05::random_source(c),
-		_ => crate::c06::random_source(c),
+		2 => crate::c06::random_source(c),
+		3 => crate::c04::enumerated_source(c),
+		4 => crate::c05::enumerated_source(c),
+		_ => crate::c06::enumerated_source(c),
 	};
 	Case {
 		files: vec![("main.pn".into(), src)],
@@ -304,7 +309,7 @@ fn declaration_graph(c: &mut Choices) -> Case
 	}
 }
 
-stream!(StructuredBodies, "structured-bodies", 60_000, 600_000, 200, structured_body);
+stream!(StructuredBodies, "structured-bodies", 90_000, 900_000, 200, structured_body);
 stream!(DeclarationGraphs, "declaration-graphs", 20_000, 200_000, 120, declaration_graph);
 
 struct Exhaustive;
@@ -347,6 +352,10 @@ impl Stream for Exhaustive
 struct DeepNesting;
 const NEST_KINDS: &[&str] = &["blocks", "ifs", "else-if chain", "parentheses", "unary minus", "negation", "address-of", "index", "calls", "array type", "pointer type", "array literal"];
 const NEST_DEPTHS: &[usize] = &[8, 16, 24, 32, 48, 64, 96, 128, 192, 256];
+/// runs of `&` are not nesting (they are counted, the limit is E390): around
+/// the limit and around the width of the counter
+const RUN_KINDS: &[&str] = &["address run in an expression", "address run in a length", "address run before an assignment"];
+const RUN_LENGTHS: &[usize] = &[126, 127, 128, 129, 254, 255, 256, 257, 258, 300, 511, 512, 513, 1000];
 impl Stream for DeepNesting
 {
 	fn name(&self) -> String
@@ -355,7 +364,7 @@ impl Stream for DeepNesting
 	}
 	fn count(&self, _tier: Tier) -> u64
 	{
-		(NEST_KINDS.len() * NEST_DEPTHS.len()) as u64
+		(NEST_KINDS.len() * NEST_DEPTHS.len() + RUN_KINDS.len() * RUN_LENGTHS.len()) as u64
 	}
 	fn exhaustive(&self) -> bool
 	{
@@ -372,12 +381,30 @@ impl Stream for DeepNesting
 	fn run(&self, idx: u64, _c: &mut Choices, ctx: &RunCtx) -> CaseOut
 	{
 		let mut out = CaseOut::default();
-		let kind = NEST_KINDS[idx as usize / NEST_DEPTHS.len()];
-		let d = NEST_DEPTHS[idx as usize % NEST_DEPTHS.len()];
-		note_case_class(&format!("{} nested {} deep", kind, d));
+		let nests = NEST_KINDS.len() * NEST_DEPTHS.len();
+		let (kind, d) = if (idx as usize) < nests
+		{
+			(NEST_KINDS[idx as usize / NEST_DEPTHS.len()], NEST_DEPTHS[idx as usize % NEST_DEPTHS.len()])
+		}
+		else
+		{
+			let k = idx as usize - nests;
+			(RUN_KINDS[k / RUN_LENGTHS.len()], RUN_LENGTHS[k % RUN_LENGTHS.len()])
+		};
+		if (idx as usize) < nests
+		{
+			note_case_class(&format!("{} nested {} deep", kind, d));
+		}
+		else
+		{
+			note_case_class(&format!("{} of {}", kind, d));
+		}
 		let rep = |s: &str| s.repeat(d);
 		let src = match kind
 		{
+			"address run in an expression" => format!("fn main() -> i32\n{{\n\tvar y: i32 = 1;\n\tvar x = {}y;\n\treturn: 0\n}}\n", rep("&")),
+			"address run in a length" => format!("fn main() -> i32\n{{\n\tvar y: [2]i32 = [1, 2];\n\tvar x: usize = |{}y|;\n\treturn: 0\n}}\n", rep("&")),
+			"address run before an assignment" => format!("fn main() -> i32\n{{\n\tvar y: i32 = 1;\n\tvar z: i32 = 2;\n\t{}y = z;\n\treturn: 0\n}}\n", rep("&")),
 			"blocks" => format!("fn main() -> i32\n{{\n\tvar x: i32 = 0;\n{}x = x + 1;\n{}\treturn: x\n}}\n", rep("{\n"), rep("}\n")),
 			"ifs" => format!("fn main() -> i32\n{{\n\tvar x: i32 = 0;\n{}x = x + 1;\n{}\treturn: x\n}}\n", rep("if x == 0\n{\n"), rep("}\n")),
 			"else-if chain" => format!("fn main() -> i32\n{{\n\tvar x: i32 = 0;\n\tif x == 1\n\t{{\n\t}}\n{}\treturn: x\n}}\n", rep("\telse if x == 2\n\t{\n\t\tx = 3;\n\t}\n")),
